@@ -70,6 +70,20 @@ struct Run<'a> {
     merge_started: bool,
 }
 
+impl Drop for Run<'_> {
+    fn drop(&mut self) {
+        if std::thread::panicking() {
+            // unwinding after a controlled stop: the crate's state is unknown, leak it
+            if let Some(sj) = self.subj.take() {
+                std::mem::forget(sj);
+            }
+            for wk in self.wakers.drain(..) {
+                std::mem::forget(wk);
+            }
+        }
+    }
+}
+
 fn ceil_log2(x: u64) -> u64 {
     if x <= 1 {
         0
@@ -92,7 +106,11 @@ impl<'a> Run<'a> {
     fn class_props(&self) -> u32 {
         let s = self.case.subj;
         if s.is_collection() {
-            p(2)
+            if s.is_ordered() {
+                p(2) | p(4)
+            } else {
+                p(2)
+            }
         } else if s.is_merge() {
             p(11)
         } else if s.is_adapter() {
@@ -182,7 +200,9 @@ impl<'a> Run<'a> {
         match r {
             Err(e) => {
                 let msg = panic_msg(&e);
-                if msg.contains("VERIF_HARD_CAP") {
+                if msg.contains("VERIF_STOP") {
+                    // a probe stopped the crate; the violation is already recorded
+                } else if msg.contains("VERIF_HARD_CAP") {
                     w(|x| {
                         x.violate(
                             p(13),
@@ -505,9 +525,11 @@ impl<'a> Run<'a> {
         if s.is_collection() {
             if self.owed() != 0 {
                 let o = self.owed();
+                // for the ordered collections this is also a failure to behave as a queue: the model's front was due
+                let pr = if s.is_ordered() { p(2) | p(4) } else { p(2) };
                 w(|x| {
                     x.violate(
-                        p(2),
+                        pr,
                         "C02/none-while-holding",
                         format!("poll_next returned Ready(None) while {o} accepted futures have not been yielded"),
                     )
@@ -1220,6 +1242,9 @@ impl<'a> Run<'a> {
             if let Err(e) = r {
                 let msg = panic_msg(&e);
                 w(|x| {
+                    if msg.contains("VERIF_STOP") {
+                        return;
+                    }
                     x.violate(
                         ALL_PROPS,
                         format!("Cxx/panic-in-drop/{}", short(&msg)),
@@ -1352,7 +1377,7 @@ impl<'a> Run<'a> {
                 });
                 for id in ids {
                     let st = w(|x| std::mem::take(&mut x.children[id as usize].stash));
-                    drop(st);
+                    alloc::vt(|| drop(st));
                 }
             }
             Op::Refill(n, pl) => {
@@ -1485,7 +1510,7 @@ impl<'a> Run<'a> {
                     x.children[id].task_stash.take(),
                 )
             });
-            drop(st);
+            alloc::vt(|| drop(st));
             drop(ts);
         }
         let wk = std::mem::take(&mut self.wakers);
@@ -1636,6 +1661,7 @@ pub fn probe_cb(pr: futures_buffered::verif::Probe) {
         if !x.active {
             return false;
         }
+        let mut stop = false;
         match pr {
             Probe::BlockAlloc { base, size, cap } => {
                 x.ev(|| format!("    [block {base:#x} allocated, cap {cap}]"));
@@ -1660,6 +1686,7 @@ pub fn probe_cb(pr: futures_buffered::verif::Probe) {
                     Some(i) => {
                         if x.blocks[i].released {
                             x.violate(p(3), "C03/double-release", format!("waker block {base:#x} released twice"));
+                            stop = true;
                         } else {
                             x.blocks[i].released = true;
                             let lc = x.blocks[i].live_clones;
@@ -1669,6 +1696,9 @@ pub fn probe_cb(pr: futures_buffered::verif::Probe) {
                                     "C03/released-while-referenced",
                                     format!("waker block {base:#x} released while {lc} waker clones are outstanding"),
                                 );
+                                // do not let the crate destroy a block that is still referenced
+                                x.blocks[i].released = false;
+                                stop = true;
                             }
                             if x.subject_alive && !x.subject_dropping && !x.in_poll {
                                 // only a discarded group of an unbounded subject may die while the subject lives;
@@ -1679,13 +1709,16 @@ pub fn probe_cb(pr: futures_buffered::verif::Probe) {
                                 x.labels |= lb::FREED_BY_WAKER;
                             }
                         }
-                        crate::alloc::quarantine_next(base);
+                        if !stop {
+                            crate::alloc::quarantine_next(base);
+                        }
                     }
                     None => {
                         x.violate(p(3), "C03/release-of-unknown-block", format!("release of unknown block {base:#x}"));
+                        stop = true;
                     }
                 }
-                false
+                stop
             }
             Probe::Vtable { kind, slot } => match x.block_of(slot) {
                 Some(i) if !x.blocks[i].released => {
@@ -1718,8 +1751,10 @@ pub fn probe_cb(pr: futures_buffered::verif::Probe) {
             },
         }
     });
+    // a ledger violation means the crate is about to touch or destroy memory it does not own:
+    // unwind out of the crate before it happens (the case is abandoned, the violation is recorded)
     if uaf && !std::thread::panicking() {
-        panic!("VERIF_UAF");
+        panic!("VERIF_STOP: waker block ledger violated");
     }
 }
 
@@ -1729,7 +1764,36 @@ pub fn install_hooks() {
 
 // ------------------------------------------------------------------------------------------------
 
+/// Runs one case. A controlled stop (`VERIF_STOP` panic raised by a probe) ends the case early with the
+/// violations recorded so far; any other panic is a harness bug and is propagated.
 pub fn run_case(case: &Case, trace: bool, alloc_on: bool) -> CaseResult {
+    match catch_unwind(AssertUnwindSafe(|| run_case_inner(case, trace, alloc_on))) {
+        Ok(r) => r,
+        Err(e) => {
+            let msg = panic_msg(&e);
+            alloc::reset_depths();
+            alloc::set_poison(false);
+            if msg.starts_with("VERIF_STOP") {
+                let (violations, labels, log) = WORLD.with(|c| match c.try_borrow_mut() {
+                    Ok(mut x) => (std::mem::take(&mut x.violations), x.labels, std::mem::take(&mut x.log)),
+                    Err(_) => (Vec::new(), 0, Vec::new()),
+                });
+                reset_world(false);
+                CaseResult {
+                    violations,
+                    labels,
+                    stats: CaseStats::default(),
+                    log,
+                    aborted: true,
+                }
+            } else {
+                std::panic::resume_unwind(e)
+            }
+        }
+    }
+}
+
+fn run_case_inner(case: &Case, trace: bool, alloc_on: bool) -> CaseResult {
     alloc::release_quarantine();
     reset_world(trace);
     alloc::reset_depths();
@@ -1889,6 +1953,15 @@ pub fn run_case(case: &Case, trace: bool, alloc_on: bool) -> CaseResult {
     }
     if stats.yielded >= 20 * stats.peak.max(1) {
         labels |= lb::MANY_PROCESSED;
+    }
+    // C03: nothing may have been written into a waker block after it was freed
+    let mut violations = violations;
+    for (p_, s_, off, b) in alloc::check_quarantine() {
+        violations.push(Violation {
+            props: p(3),
+            sig: "C03/write-after-free".into(),
+            msg: format!("the freed waker block {p_:#x} ({s_} bytes) was written to after its release: offset {off} holds {b:#04x}"),
+        });
     }
     // leave nothing behind for the next case on this thread
     reset_world(false);
